@@ -204,7 +204,8 @@ def build_ocaml_driver(name, coq_extract_v, driver_ml, timeout=600):
         rc, out = sh("coqc -Q %s GD %s" % (COQ, vsrc), cwd=od, timeout=timeout)
         if rc != 0:
             raise BuildError("extraction failed:\n" + out[-3000:])
-        shutil.copy(dsrc, os.path.join(od, "driver.ml"))
+        if os.path.abspath(dsrc) != os.path.join(od, "driver.ml"):
+            shutil.copy(dsrc, os.path.join(od, "driver.ml"))
         rc, out = sh("ocamlfind ocamlopt -O2 -w -a -package str -linkpkg model.mli model.ml driver.ml -o driver 2>&1 || "
                      "ocamlfind ocamlopt -w -a -package str -linkpkg model.mli model.ml driver.ml -o driver", cwd=od, timeout=timeout)
         if rc != 0:
